@@ -31,44 +31,54 @@ theorem runFrom_steps (b : Bool) (n : Nat) (σ : St) :
     show runFrom b (exec b σ .step) (List.replicate k Step.step) = steps b k (step b σ)
     exact ih (step b σ)
 
-theorem handler_pc (b : Bool) (σ : St) : (handler b σ).pc = σ.pc ∧ (handler b σ).inCrit = σ.inCrit := by
-  unfold handler
+/-- the signal handler outside a critical section keeps pc, `in_critical_section`, `timeout_deferred` -/
+theorem handler_pc (b : Bool) (σ : St) (hc : σ.inCrit = false) :
+    (handler b σ).pc = σ.pc ∧ (handler b σ).inCrit = σ.inCrit ∧ (handler b σ).deferredFlag = σ.deferredFlag := by
+  unfold handler handlerBody
+  simp only [hc, Bool.false_eq_true, if_false]
   split
-  · unfold setTimerH; split
-    · exact ⟨rfl, rfl⟩
-    · split <;> exact ⟨rfl, rfl⟩
-  · simp only
-    split
-    · exact ⟨rfl, rfl⟩
-    · split
-      · exact ⟨rfl, rfl⟩
-      · unfold setTimerH; split
-        · exact ⟨rfl, rfl⟩
-        · split <;> exact ⟨rfl, rfl⟩
+  · exact ⟨rfl, rfl, rfl⟩
+  · split
+    · exact ⟨rfl, rfl, rfl⟩
+    · unfold setTimerH; split
+      · exact ⟨rfl, rfl, rfl⟩
+      · split <;> exact ⟨rfl, rfl, rfl⟩
 
-theorem tick_pc (b : Bool) (σ : St) (d : Int) :
+theorem tick_pc (b : Bool) (σ : St) (d : Int) (hc : σ.inCrit = false) :
     (tick b σ d).pc = σ.pc ∧ (tick b σ d).inCrit = σ.inCrit ∧
-    (σ.inCrit = false → (tick b σ d).dirty = σ.dirty) := by
+    (tick b σ d).dirty = σ.dirty ∧ (tick b σ d).deferredFlag = σ.deferredFlag := by
   unfold tick
   split
-  · exact ⟨rfl, rfl, fun _ => rfl⟩
+  · exact ⟨rfl, rfl, rfl, rfl⟩
   · split
-    · exact ⟨rfl, rfl, fun h => by simp [h]⟩
+    · exact ⟨rfl, rfl, by simp [hc], rfl⟩
     · split
-      · exact ⟨rfl, rfl, fun h => by simp [h]⟩
-      · refine ⟨(handler_pc b _).1, (handler_pc b _).2, fun h => ?_⟩
-        rw [handler_dirty b _]; simp [h]
+      · exact ⟨rfl, rfl, by simp [hc], rfl⟩
+      · obtain ⟨p1, p2, p3⟩ := handler_pc b { σ with
+            now := σ.now + σ.remaining
+            remaining := 0
+            dirty := σ.dirty || σ.inCrit } hc
+        refine ⟨p1, p2, ?_, p3⟩
+        rw [handler_dirty b _]; simp [hc]
 
 /-- the state between two public operations of a quiet run -/
 structure Rest (σ : St) : Prop where
   idle : σ.pc = .idle
   clean : σ.dirty = false
+  noDef : σ.deferredFlag = false
   clock : Clock σ
 
-theorem steps_flags (b : Bool) (n : Nat) (σ : St) : (steps b n σ).dirty = σ.dirty := by
+theorem steps_flags (b : Bool) (n : Nat) (σ : St) :
+    (steps b n σ).dirty = σ.dirty ∧ (σ.deferredFlag = false → (steps b n σ).deferredFlag = false) := by
   induction n generalizing σ with
-  | zero => rfl
-  | succ k ih => exact (ih (step b σ)).trans (step_flags b σ)
+  | zero => exact ⟨rfl, fun h => h⟩
+  | succ k ih =>
+    obtain ⟨i1, i2⟩ := ih (step b σ)
+    obtain ⟨f1, _, f3⟩ := step_flags' b σ
+    refine ⟨i1.trans f1, fun h => i2 ?_⟩
+    cases hh : (step b σ).deferredFlag
+    · rfl
+    · have := f3 hh; rw [h] at this; exact absurd this (by simp)
 
 theorem rest_create {σ : St} (h : Rest σ) (id : Nat) (cs : Int) :
     Rest (steps false 4 (create σ id cs)) := by
@@ -82,32 +92,35 @@ theorem rest_create {σ : St} (h : Rest σ) (id : Nat) (cs : Int) :
         unfold create; simp [hg, h0]
       have hidle : (create σ id cs).pc = .idle := by rw [heq]; exact h.idle
       rw [steps_idle false 4 _ hidle, heq]
-      exact ⟨h.idle, h.clean,
+      exact ⟨h.idle, h.clean, h.noDef,
         hc.frame (Or.inl h.idle) hc.notCrit hc.noErr rfl rfl rfl rfl rfl rfl rfl
           ⟨[Event.rejected id cs], rfl, by intro e he; simp at he; subst he; exact neutral_simple.2.2.2.2.2.2.2.2 _ _⟩⟩
     · have hpos : 0 < cs := by omega
-      have hflags : ∀ n, (steps false n (create σ id cs)).dirty = false := by
+      have hcf := flags_eq (create_flags σ id cs)
+      have hflags : ∀ n, (steps false n (create σ id cs)).dirty = false ∧
+          (steps false n (create σ id cs)).deferredFlag = false := by
         intro n
-        rw [steps_flags false n (create σ id cs), create_flags σ id cs, h.clean]
+        obtain ⟨s1, s2⟩ := steps_flags false n (create σ id cs)
+        exact ⟨by rw [s1, hcf.1, h.clean], s2 (by rw [hcf.2.1, h.noDef])⟩
       cases hr : σ.running
       · have hp : σ.pending = [] := by
           cases hpd : σ.pending with
           | nil => rfl
           | cons e r => have := hc.run.mpr (by rw [hpd]; simp); rw [hr] at this; exact absurd this (by simp)
         have hidle : (steps false 3 (create σ id cs)).pc = .idle := by
-          rw [create_A_eq false σ id cs hpos h.idle hf hr hp]
+          rw [create_A_eq false σ id cs hpos h.idle hf hr hp h.noDef]
         have hext := steps_extend false 3 1 (create σ id cs) hidle
         rw [show (4 : Nat) = 3 + 1 from rfl, hext]
-        exact ⟨hidle, hflags 3, clock_create_A hc id cs hpos h.idle hf hr⟩
+        exact ⟨hidle, (hflags 3).1, (hflags 3).2, clock_create_A hc id cs hpos h.idle hf hr h.noDef⟩
       · cases hlt : (Time.ofCs cs).lt (getTimer σ)
         · have hidle : (steps false 3 (create σ id cs)).pc = .idle := by
-            rw [create_B2_eq false σ id cs hpos h.idle hf hr hlt]
+            rw [create_B2_eq false σ id cs hpos h.idle hf hr hlt h.noDef]
           have hext := steps_extend false 3 1 (create σ id cs) hidle
           rw [show (4 : Nat) = 3 + 1 from rfl, hext]
-          exact ⟨hidle, hflags 3, clock_create_B2 hc id cs hpos h.idle hf hr hlt⟩
+          exact ⟨hidle, (hflags 3).1, (hflags 3).2, clock_create_B2 hc id cs hpos h.idle hf hr hlt h.noDef⟩
         · have hidle : (steps false 4 (create σ id cs)).pc = .idle := by
-            rw [create_B1_eq false σ id cs hpos h.idle hf hr hlt]
-          exact ⟨hidle, hflags 4, clock_create_B1 hc id cs hpos h.idle hf hr hlt⟩
+            rw [create_B1_eq false σ id cs hpos h.idle hf hr hlt h.noDef]
+          exact ⟨hidle, (hflags 4).1, (hflags 4).2, clock_create_B1 hc id cs hpos h.idle hf hr hlt h.noDef⟩
 
 theorem rearm_ok {σ : St} (h : Clock σ) (e n : Ev) (rest : List Ev)
     (hp : σ.pending = e :: n :: rest) (hne : Time.ne false e.deadline n.deadline = true) :
@@ -136,9 +149,13 @@ theorem rearm_ok {σ : St} (h : Clock σ) (e n : Ev) (rest : List Ev)
 
 theorem rest_destroy {σ : St} (h : Rest σ) (id : Nat) : Rest (steps false 5 (destroy σ id)) := by
   have hc := h.clock
-  have hflags : ∀ n, (steps false n (destroy σ id)).dirty = false := by
+  have hdf := flags_eq (destroy_flags σ id)
+  have hnd : (destroy σ id).deferredFlag = false := by rw [hdf.2.1, h.noDef]
+  have hflags : ∀ n, (steps false n (destroy σ id)).dirty = false ∧
+      (steps false n (destroy σ id)).deferredFlag = false := by
     intro n
-    rw [steps_flags false n (destroy σ id), destroy_flags σ id, h.clean]
+    obtain ⟨s1, s2⟩ := steps_flags false n (destroy σ id)
+    exact ⟨by rw [s1, hdf.1, h.clean], s2 hnd⟩
   by_cases hg : σ.pc ≠ .idle ∨ id ∉ σ.live
   · have : destroy σ id = σ := by unfold destroy; simp [hg]
     rw [this, steps_idle false 5 σ h.idle]; exact h
@@ -147,8 +164,8 @@ theorem rest_destroy {σ : St} (h : Rest σ) (id : Nat) : Rest (steps false 5 (d
         unfold destroy; simp [hg, hexp]
       have hidle : (destroy σ id).pc = .idle := by rw [heq]; exact h.idle
       rw [steps_idle false 5 _ hidle]
-      refine ⟨hidle, ?_, ?_⟩
-      · rw [destroy_flags σ id]; exact h.clean
+      refine ⟨hidle, ?_, hnd, ?_⟩
+      · rw [hdf.1]; exact h.clean
       · rw [heq]; exact hc.logDestroyed id rfl rfl rfl rfl rfl rfl rfl rfl rfl rfl rfl
     · have heq : destroy σ id = { σ with live := σ.live.erase id, pc := .d1 id } := by
         unfold destroy; simp [hg, hexp]
@@ -162,37 +179,37 @@ theorem rest_destroy {σ : St} (h : Rest σ) (id : Nat) : Rest (steps false 5 (d
         have hext := steps_extend false m (5 - m) (destroy σ id) hidle
         rw [show m + (5 - m) = 5 by omega] at hext
         rw [hext]
-        exact ⟨hidle, hflags m, hcl⟩
+        exact ⟨hidle, (hflags m).1, (hflags m).2, hcl⟩
       cases hp : (destroy σ id).pending with
       | nil =>
-        exact fin 2 (by omega) (by rw [destroy_nil_eq false _ id hpc hp]) (clock_destroy_nil hc' id hpc hp)
+        exact fin 2 (by omega) (by rw [destroy_nil_eq false _ id hpc hp hnd]) (clock_destroy_nil hc' id hpc hp hnd)
       | cons e rest =>
         by_cases he : e.id = id
         · cases hrest : rest with
           | nil =>
             have hp' : (destroy σ id).pending = [e] := by rw [hp, hrest]
-            exact fin 4 (by omega) (by rw [destroy_last_eq false _ id hpc e hp' he])
-              (clock_destroy_last hc' id hpc e hp' he)
+            exact fin 4 (by omega) (by rw [destroy_last_eq false _ id hpc e hp' he hnd])
+              (clock_destroy_last hc' id hpc e hp' he hnd)
           | cons n r' =>
             have hp' : (destroy σ id).pending = e :: n :: r' := by rw [hp, hrest]
             cases hne : Time.ne false e.deadline n.deadline
-            · exact fin 2 (by omega) (by rw [destroy_eqdl_eq _ id hpc e n r' hp' he hne])
-                (clock_destroy_eqdl hc' id hpc e n r' hp' he hne)
+            · exact fin 2 (by omega) (by rw [destroy_eqdl_eq _ id hpc e n r' hp' he hne hnd])
+                (clock_destroy_eqdl hc' id hpc e n r' hp' he hne hnd)
             · obtain ⟨hnz, hok⟩ := rearm_ok hc' e n r' hp' hne
-              exact fin 5 (by omega) (by rw [destroy_rearm_eq _ id hpc e n r' hp' he hne hnz hok])
-                (clock_destroy_rearm hc' id hpc e n r' hp' he hne)
-        · exact fin 2 (by omega) (by rw [destroy_other_eq false _ id hpc e rest hp he])
-            (clock_destroy_other hc' id hpc e rest hp he)
+              exact fin 5 (by omega) (by rw [destroy_rearm_eq _ id hpc e n r' hp' he hne hnz hok hnd])
+                (clock_destroy_rearm hc' id hpc e n r' hp' he hne hnd)
+        · exact fin 2 (by omega) (by rw [destroy_other_eq false _ id hpc e rest hp he hnd])
+            (clock_destroy_other hc' id hpc e rest hp he hnd)
 
 end PPLV.Watchdog
 
 namespace PPLV.Watchdog
 
 theorem rest_tick {σ : St} (h : Rest σ) (d : Int) : Rest (tick false σ d) := by
-  obtain ⟨t1, t2, t3⟩ := tick_pc false σ d
-  exact ⟨t1.trans h.idle, (t3 h.clock.notCrit).trans h.clean, clock_tick h.clock d⟩
+  obtain ⟨t1, t2, t3, t4⟩ := tick_pc false σ d h.clock.notCrit
+  exact ⟨t1.trans h.idle, t3.trans h.clean, t4.trans h.noDef, clock_tick h.clock d⟩
 
-theorem rest_init : Rest {} := ⟨rfl, rfl, clock_init⟩
+theorem rest_init : Rest {} := ⟨rfl, rfl, rfl, clock_init⟩
 
 theorem rest_atomic (ops : List Step) :
     ∀ σ, Rest σ → Rest (runFrom false σ (atomicSched ops)) := by
